@@ -13,7 +13,7 @@ import (
 	"verif/sim/wl"
 )
 
-var lifecycleYields = []string{"start.opened", "stop.mid", "stop.closed", "accept.entry", "accept.exit", "conn.register", "conn.deregister"}
+var lifecycleYields = []string{"start.opened", "stop.mid", "stop.closed", "accept.entry", "accept.exit", "conn.register", "conn.deregister", "connmgr.stopped", "connmgr.snapshot"}
 
 // serverFrames reports framework goroutines found in a full goroutine dump.
 func serverFrames() []string {
@@ -249,6 +249,12 @@ func runC15(t *testing.T, tape *sim.Tape, tier string) *Outcome {
 				running = true
 				checkRunning(when)
 				checkRegistry(when)
+			case op == "Stop" && err != nil:
+				// Stop may report that a peer could not be closed cleanly (a TLS client that is already gone),
+				// but once it has returned the promised state must hold all the same
+				running = false
+				o.stat("stop_returned_error", 1)
+				checkStopped(when)
 			case op == "Restart" && err != nil:
 				// Stop half may have run: nothing is promised
 				running = false
@@ -272,9 +278,21 @@ func runC15(t *testing.T, tape *sim.Tape, tier string) *Outcome {
 	extra := func() []sim.Action { return nil }
 	// wrap choose: note when an op begins (the life task is released from "op:")
 	budget := 3000
+	pendingHold := false
 	for i := 0; i < budget && len(o.Viol) == 0; i++ {
 		cl.S.Wait()
 		cl.collectAll()
+		if pendingHold {
+			pendingHold = false
+			if cl.lifeDone <= opStarted { // the call is still in progress
+				for _, t := range serverTasks(cl) {
+					if tape.Draw(2, "hold") == 1 {
+						t.Held = true
+						o.stat("tasks_held_late", 1)
+					}
+				}
+			}
+		}
 		inv()
 		if len(o.Viol) > 0 {
 			break
@@ -296,14 +314,9 @@ func runC15(t *testing.T, tape *sim.Tape, tier string) *Outcome {
 			if op == "Stop" || op == "Restart" {
 				running = false // no promise once Stop has been called
 			}
-			if holdLate {
-				for _, t := range serverTasks(cl) {
-					if tape.Draw(2, "hold") == 1 {
-						t.Held = true
-						o.stat("tasks_held_late", 1)
-					}
-				}
-			}
+			// which tasks stay parked until the call has returned is drawn at the next quiescent point:
+			// the released lifecycle goroutine is running right now and may be spawning accept loops
+			pendingHold = holdLate
 		}
 	}
 	if len(o.Viol) == 0 {
@@ -335,7 +348,7 @@ func init() {
 	register(&Check{
 		ID: "C15", Bubble: true, Run: runC15,
 		Runs:   map[string]int{"quick": 16000, "thorough": 1000000},
-		Rule:   "a case is one run: a lifecycle task executing 1..6 drawn calls from {Start, Stop, Restart} (ill-ordered sequences included), 0..4 clients that dial, PING, idle, close or reset at drawn moments, and the accept loops and connection goroutines the server spawns, interleaved by the seeded scheduler at simulated Listen/Accept/Read and at the tagged yield points (start.opened, stop.mid, stop.closed, accept.entry, accept.exit, conn.register, conn.deregister; each enabled per run by the swarm); half of the runs hold a drawn set of server tasks parked until the call in progress has returned; after each call returns the system is drained and the promised state is probed (dial+PING; bind probe, closed sockets, parked tasks, goroutine profile, registry); distinct = distinct event-log hashes",
+		Rule:   "a case is one run: a lifecycle task executing 1..6 drawn calls from {Start, Stop, Restart} (ill-ordered sequences included), 0..4 clients that dial, PING, idle, close or reset at drawn moments, and the accept loops and connection goroutines the server spawns, interleaved by the seeded scheduler at simulated Listen/Accept/Read and at the tagged yield points (start.opened, stop.mid, stop.closed, accept.entry, accept.exit, conn.register, conn.deregister, connmgr.stopped, connmgr.snapshot; each enabled per run by the swarm); half of the runs hold a drawn set of server tasks parked until the call in progress has returned; after each call returns the system is drained and the promised state is probed (dial+PING; bind probe, closed sockets, parked tasks, goroutine profile, registry); distinct = distinct event-log hashes",
 		Real:   []string{"redis.Server Start/Stop/Restart/open/close, accept loops, connection goroutines, ConnManager"},
 		Stub:   []string{"network: simulated listeners (EADDRINUSE while bound) and connections", "handler: reference store"},
 		Assume: []string{"a goroutine that is merely not scheduled yet is not a leak: leaks are judged after draining every enabled task", "half of the runs enable the TLS port as well (real crypto/tls clients, some stalled in their handshake)"},
